@@ -98,7 +98,7 @@ PLAN = {
     "C07": (["size", "size", "sweep", "mix"], ["Cfg_count", "Cfg_countExp", "Cfg_weight", "Cfg_weightAll"]),
     "C08": (["load", "load"], ["Cfg_plain", "Cfg_refresh"]),
     "C10": (["load", "load", "stats"], ["Cfg_plain", "Cfg_writing", "Cfg_refresh", "Cfg_count"]),
-    "C11": (["load"], ["Cfg_refresh", "Cfg_refreshC", "Cfg_refreshX", "Cfg_weightAll"]),
+    "C11": (["load", "deadline"], ["Cfg_refresh", "Cfg_refreshC", "Cfg_refreshX", "Cfg_weightAll"]),
     "C12": (["deadline", "deadline", "expiry", "mix"], ["Cfg_creating", "Cfg_writing", "Cfg_accessing", "Cfg_custom", "Cfg_refreshX"]),
     "C19": (["persist"], ["Cfg_writing", "Cfg_weight"]),
     "C20": (["stats", "stats", "load", "mix"], ["Cfg_plain", "Cfg_count", "Cfg_refresh", "Cfg_weightAll"]),
